@@ -7,6 +7,7 @@ package main
 import (
 	"bytes"
 	"fmt"
+	"math"
 	"os"
 	"os/exec"
 	"path/filepath"
@@ -223,7 +224,7 @@ func cliExec(argv []string, seed int64, in string, side []string, dir string) *c
 	for _, s := range side {
 		os.Remove(filepath.Join(dir, s))
 	}
-	full := append(append([]string{}, argv...), "-i", in, "--seed", strconv.FormatInt(seed, 10))
+	full := append(append([]string{}, argv...), "-i", in, "--seed="+strconv.FormatInt(seed, 10))
 	cmd := exec.Command(cliBin, full...)
 	cmd.Dir = dir
 	var so, se bytes.Buffer
@@ -288,6 +289,14 @@ func runCli(c *mon.Case) {
 		panic("harness: " + err.Error())
 	}
 	seed := int64(r.Range(0, 1<<30))
+	switch r.Intn(4) { // every seed but -1 (documented as "no seed") is a seed: also 0, negative and extreme values
+	case 0:
+		seed = -2 - int64(r.Range(0, 1<<30))
+		c.Count("cli:negative-seed")
+	case 1:
+		seed = []int64{0, -2, math.MinInt64, math.MaxInt64 - 200000}[r.Intn(4)]
+		c.Count("cli:extreme-seed")
+	}
 	c.Input(map[string]interface{}{"command": strings.Join(argv, " "), "seed": seed, "input": in})
 	k := &kase{c: c, in: in, g: g, seed: seed, o: &outcome{}}
 	first := cliExec(argv, seed, inPath, side, cliDir)
